@@ -607,13 +607,16 @@ func fix128BigIntToUFix64(
 	bigInt *big.Int,
 ) UFix64Value {
 
-	if bigInt.Cmp(fixedpoint.UFix64TypeMaxScaledTo128) > 0 {
-		panic(&OverflowError{})
-	} else if bigInt.Cmp(fixedpoint.UFix64TypeMinScaledTo128) < 0 {
-		panic(&UnderflowError{})
-	}
+	// Drop the excess fractional digits first (truncating toward zero),
+	// then check the range of the result, like the conversions to integer types
+	// and the conversions with a rounding rule do.
+	bigInt = new(big.Int).Quo(bigInt, fixedpoint.Fix64ToFix128FactorAsBigInt)
 
-	bigInt = bigInt.Div(bigInt, fixedpoint.Fix64ToFix128FactorAsBigInt)
+	if bigInt.Sign() < 0 {
+		panic(&UnderflowError{})
+	} else if !bigInt.IsUint64() {
+		panic(&OverflowError{})
+	}
 
 	return NewUFix64Value(
 		memoryGauge,
